@@ -30,3 +30,40 @@ Theorem retained_at_most_threshold : forall msg parse tags thr t, thr = Some t -
   pieces <> [] -> length (snd (feed msg parse tags thr data pieces)) <= t.
 Proof. exact feed_retained. Qed.
 Print Assumptions retained_at_most_threshold.
+
+From Indi Require Import Buffer.Junk.
+
+(* Junk that contains no known-tag opener ("<" + a message tag) is invisible:
+   in front of any text that starts with '<' it changes neither what a process()
+   call delivers nor what it retains - so it can neither prevent nor delay the
+   messages around it.  (tags_clean: no tag contains '<'.) *)
+Theorem benign_junk_is_transparent : forall msg parse tags thr X y',
+  tags_clean tags -> opener_free tags X ->
+  process msg parse tags thr (X ++ LT :: y') = process msg parse tags thr (LT :: y').
+Proof. exact junk_prefix_transparent. Qed.
+Print Assumptions benign_junk_is_transparent.
+
+(* ... and junk alone produces no delivery and leaves only junk behind, so the
+   statement above applies again to whatever arrives next (for a parser that
+   accepts only texts containing a known-tag opener). *)
+Theorem benign_junk_alone_is_silent : forall msg parse tags thr X,
+  parse_needs_opener msg parse tags -> opener_free tags X ->
+  snd (process msg parse tags thr X) = [] /\
+  opener_free tags (snd (fst (process msg parse tags thr X))).
+Proof. exact junk_only_silent. Qed.
+Print Assumptions benign_junk_alone_is_silent.
+
+(* After a corrupt front c (no parse attempt starting inside it succeeds), once
+   more than the threshold has arrived behind it (s, starting with a known
+   opener), processing continues exactly as if c had never been there: every
+   later valid message is delivered as from a clean stream. *)
+Theorem corrupt_front_is_abandoned : forall msg parse tags t c s acc f1 f2,
+  corrupt msg parse c s -> starts_with_opener tags s -> t < length s ->
+  length (c ++ s) < f1 -> length s < f2 ->
+  process_loop msg parse tags f1 (Some t) (c ++ s) acc = process_loop msg parse tags f2 (Some t) s acc.
+Proof. exact recovery_from_start. Qed.
+Print Assumptions corrupt_front_is_abandoned.
+
+Theorem corrupt_is_decidable : forall msg parse c s, corruptb msg parse c s = true -> corrupt msg parse c s.
+Proof. exact corruptb_corrupt. Qed.
+Print Assumptions corrupt_is_decidable.
